@@ -81,6 +81,7 @@ pub struct SWorld {
     pub roots: Vec<Vec<Rc<SNode>>>,
     pub wroots: Vec<Vec<Weak<SNode>>>,
     pub raws: Vec<Vec<*const SNode>>,
+    pub wraws: Vec<Vec<*const SNode>>,
     pub detached: Vec<Option<SNode>>,
 }
 
@@ -111,6 +112,7 @@ impl SWorld {
             std::mem::forget(v);
         }
         self.raws.clear();
+        self.wraws.clear();
         self.vptr.clear();
         self.n = 0;
         self.push_slot(0);
@@ -121,6 +123,7 @@ impl SWorld {
         self.roots.push(Vec::new());
         self.wroots.push(Vec::new());
         self.raws.push(Vec::new());
+        self.wraws.push(Vec::new());
         self.detached.push(None);
     }
     fn node(&self, a: u32) -> &SNode {
@@ -140,6 +143,12 @@ impl SWorld {
                 let h: Rc<SNode> = match how {
                     "box" => Rc::from(Box::new(n)),
                     "from" => Rc::from(n),
+                    "uninit" => {
+                        let mut rc = Rc::<SNode>::new_uninit();
+                        Rc::get_mut(&mut rc).unwrap().write(n);
+                        unsafe { rc.assume_init() }
+                    }
+                    "pin" => unsafe { std::pin::Pin::into_inner_unchecked(Rc::pin(n)) },
                     _ => Rc::new(n),
                 };
                 self.push_slot(Rc::as_ptr(&h) as usize);
@@ -294,6 +303,16 @@ impl SWorld {
                     self.roots[newid as usize].push(h);
                 }
                 branch.into()
+            }
+            "WeakIntoRaw" => {
+                let w = self.wroots[ai].pop()?;
+                self.wraws[ai].push(w.into_raw());
+                "ok".into()
+            }
+            "WeakFromRaw" => {
+                let p = self.wraws[ai].pop()?;
+                self.wroots[ai].push(unsafe { Weak::from_raw(p) });
+                "ok".into()
             }
             "IntoRaw" => {
                 let h = self.roots[ai].pop()?;
